@@ -6,7 +6,7 @@ from ..canon import Snap, problem_diff, vec_diff, mat_diff, nodal_row_index
 from .c07 import rename_hostile
 
 PROPERTY = 'C09'
-CASES = {'quick': 120, 'thorough': 2000}
+CASES = {'quick': 360, 'thorough': 2880}
 BUDGET_S = {'quick': 240, 'thorough': 2400}
 RULE = ('case = a random mixed portfolio P (transports, storages with two nodes, multi-commodity, CHP/Plant, structured, scaled, order books, '
         'mixed wacc) and two variants executed through the real code: P renamed by an injective renaming of assets and nodes drawn from a hostile '
@@ -16,8 +16,8 @@ RULE = ('case = a random mixed portfolio P (transports, storages with two nodes,
         'optimal value equal. Non-trivial: >=3 assets and >=1 multi-node asset or mixed wacc; distinct = spec hashes.')
 ASSUMPTIONS = ['structural comparison exact (renaming) / exact per asset block (permutation)', 'value tolerance 1e-5 (MIP 2e-4) relative',
                'per-asset dispatch/DCF are compared only under renaming (same numeric problem => same solver output); under permutation optima need not be unique']
-MIN_NONVACUOUS = {'quick': {'rename.problem_identical': 80, 'rename.value_equal': 60, 'rename.outputs_equal_up_to_relabelling': 60,
-                            'permute.asset_blocks_identical': 80, 'permute.nodal_rows_identical': 80, 'permute.value_equal': 60},
+MIN_NONVACUOUS = {'quick': {'rename.problem_identical': 200, 'rename.value_equal': 150, 'rename.outputs_equal_up_to_relabelling': 150,
+                            'permute.asset_blocks_identical': 200, 'permute.nodal_rows_identical': 200, 'permute.value_equal': 150},
                   'thorough': {'rename.problem_identical': 1500, 'permute.asset_blocks_identical': 1500, 'permute.value_equal': 1200}}
 
 
